@@ -1,6 +1,7 @@
 import SdcModel.XmlBinding
 import SdcModel.Proofs.XmlBindingCls
 import SdcModel.Generated.Schema
+import SdcModel.Generated.XsdTable
 /-!
 # C05 — BICEPS / WS-* data types round-trip losslessly through XML
 Property theorems only. Model: `SdcModel/XmlBinding.lean` (one `write` / `read` per descriptor kind of
@@ -95,6 +96,41 @@ theorem generated_roundtrip_partial (C : Codec) (fuel c : Nat) (fs : List Val) (
       readCls C Generated.Schema.schema fuel c x = some (.obj c fs) := by
   obtain ⟨x, hw, _, hr⟩ := roundtrip C Generated.Schema.schema fuel c fs tag h
   exact ⟨x, hw, hr⟩
+
+/-! ### what the API user reads -/
+
+/-- a member that is present in the XML — also with a falsy value (`0`, `false`, `PT0S`, `''`) — is read through the
+    public attribute as exactly that value; the implied value never replaces it -/
+theorem public_read_present (implied : Option String) (v : Val) (h : v ≠ .none) : publicRead implied v = v :=
+  publicRead_present implied v h
+
+/-- a member that is absent is read as its declared implied value -/
+theorem public_read_absent (implied : String) : publicRead (some implied) .none = .atom implied :=
+  publicRead_absent implied
+
+/-! ### the bundled XML schemas as independent reference -/
+
+/-- a deviation `(class, member name, code)` with the names behind the numbers -/
+def xsdRender (d : Nat × Nat × Nat) : String × String × Nat :=
+  ((Generated.Schema.classes[d.1]?.map (·.name)).getD "?", Generated.XsdTable.localNames.getD d.2.1 "?", d.2.2)
+
+/-- deviations that are accepted as they are: attributes the XSD requires and the class declares optional (code 6) for
+    `SequenceId` (reports / responses), `OperatingMode` (operation states) and `Relation/@Entries` — the library always
+    sets them; a document that omits them is outside the schema value space -/
+def xsdAccepted (d : String × String × Nat) : Bool :=
+  d.2.2 == 6 && (d.2.1 == "SequenceId" || d.2.1 == "OperatingMode" || d.2.1 == "Entries")
+
+/-- **the generated class table matches the bundled XSD** (kernel evaluation over all 204 classes that stand for an XSD
+    type): every element member is a child element of the XSD type, members appear in the order of the XSD sequence,
+    the declared value class of a nested member stands for exactly the XSD type of the element (a base class where the
+    XSD has the derived type is a deviation), lists ↔ maxOccurs, every attribute member is an attribute of the XSD type,
+    implied values equal the XSD defaults — except for the deviations listed here (known findings in
+    known_findings/C05.json: two list members the XSD allows only once) and the accepted optional-but-required
+    attributes above. -/
+theorem generated_schema_matches_xsd :
+    ((xsdDeviations Generated.Schema.schema Generated.XsdTable.links).map xsdRender).filter (fun d => !xsdAccepted d) =
+      [("msg_types.GetContainmentTreeResponse", "ContainmentTree", 4),
+       ("msg_types.SystemErrorReportPart", "ErrorInfo", 4)] := by decide +kernel
 
 /-! ### non-vacuity: a concrete codec, a two-class schema, a well-typed nested value -/
 
